@@ -46,6 +46,9 @@ def free_scenarios(run):
         # waiters of different keys at the same time; releases in both orders
         out.append(dict(kind=kind, steps=[st(1, L, 1), st(2, L, 2), st(3, L, 1), st(4, L, 2), st(1, T, 3), st(1, U, 3), st(2, U, 2), st(1, U, 1)]))
         out.append(dict(kind=kind, steps=[st(1, L, 1), st(2, L, 2), st(3, L, 1), st(4, L, 2), st(2, C, 3), st(1, U, 1), st(2, U, 2)]))
+    # the same after thousands of other keys have been used (whatever a keyed mutex keeps per key must not run out or be shared)
+    for sc in list(out)[:: (3 if q else 1)]:
+        out.append(dict(sc, warm=(5000 if q else 20000)))
     for i in range(60 if q else 1500):
         out.append(dict(kind=("m" if i % 2 else "rw"), steps=[dict(t=run.rng.randint(1, 4), r=run.rng.randint(0, 9999)) for _ in range(run.rng.randint(8, 30))]))
     return out
@@ -118,10 +121,22 @@ def check(run):
         rnd.append(program([], p, "random", n=20 if q else 60, seed=run.seed * 1000 + i))
     # (g) free-running timelines: goroutines really queue on the locks (the controlled scheduler never lets one enter a Lock that waits)
     free = free_scenarios(run)
-    fevs, rc, err = run_driver(run, "keyedfree", free, allow_fail=True, timeout=1500)
-    if rc != 0:
-        raise Inconclusive("keyedfree driver failed rc=%d: %s" % (rc, err[-1200:]))
-    fsegs = split_segments(fevs, reset_key="ev", reset_val="reset")
+    fsegs, todo, guard = [], list(free), 0
+    while todo and guard < 6:
+        guard += 1
+        fevs, rc, err = run_driver(run, "keyedfree", todo, allow_fail=True, timeout=1500)
+        cur = split_segments(fevs, reset_key="ev", reset_val="reset")
+        if rc == 0:
+            fsegs += cur
+            break
+        msg = next((ln.strip() for ln in err.splitlines() if ln.startswith("fatal error:") or ln.startswith("panic:")), "")
+        if not msg or not cur:
+            raise Inconclusive("keyedfree driver failed rc=%d: %s ... %s" % (rc, err[:1200], err[-400:]))
+        # the process died inside the code under test: the timeline that was running ends with a crash line (no validator action
+        # explains it), the remaining timelines are run in a new process
+        cur[-1] = cur[-1] + [dict(ev="crash", msg=msg)]
+        fsegs += cur
+        todo = todo[len(cur):]
     validate(run, "keyed", "KeyedLockAbsTrace", dict(NK=3, NT=4), fsegs, [], plans=free[:len(fsegs)], label="free-running")
     h1, _ = run_programs(run, "keyed", progs)
     h2, _ = run_programs(run, "keyed", rnd)
